@@ -1,7 +1,10 @@
 (* netbuf/netbuf_write.c: the buffered writer on a record that mirrors struct netbuf_write.
    A struct writebuf is (the datalen valid bytes, buflen).  The transport (network_write) is
    abstract: [poke] says which buffer it hands to network_write, [writbuf] takes the reported
-   length.  [poke_old] / [reserve_old] are the functions as they were before the two repairs
+   length.  That buffer ([EvStart data]: WB->buf with length = minimum = datalen) is what poke
+   hands to WHICHEVER transport is configured - network_write(W->s, ...) or, for a writer made by
+   netbuf_write_init2(-1, ctx, ...), (netbuf_write_ssl_func)(W->ssl, ...); the C computes the same
+   arguments in both branches and the C driver runs every scenario over both.  [poke_old] / [reserve_old] are the functions as they were before the two repairs
    (F3, F6); they are used only by regression Examples.  No proofs in this file. *)
 From Coq Require Import NArith ZArith List Bool Arith.
 From LCP Require Import Base.CheckedMem.
